@@ -29,6 +29,7 @@ import Driver.Abs
 import Driver.Nms
 import Driver.Sites
 import Driver.G72x
+import Driver.Small3
 open Sf
 
 def lawOf (s : String) : Option G711.Law :=
@@ -103,4 +104,5 @@ def main (args : List String) : IO UInt32 := do
   | "nms" :: rest => Driver.Nms.cmd rest
   | "sites" :: _ => SitesDriver.cmd
   | "g72x" :: rest => Driver.G72x.cmd rest
+  | "small3" :: rest => Driver.Small3.cmd rest
   | _ => IO.eprintln "usage: sfmodel <g711|...> ..."; return 2
